@@ -380,6 +380,45 @@ def make_section_scope(variant: str):
     return h
 
 
+CONST_TYPES = ["float64", "float32", "float16", "int16", "uint8", "truncated uint8"]
+CONST_FORMS = ["%d / %d", "%d / %d + 2 ** 60", "%d * %d", "(%d / %d) * 1e-9", "%d.12345678901234567890123456789 / %d"]
+
+
+def make_const_roundtrip(ti: int):
+    """
+    str(constant) is canonical DSDL: the rendering of a definition holding one constant reads back as an equal model
+    with exactly the same value (a rational: 1 / 3 and 2 ** 60 + 1 / 7 are not doubles).
+    """
+    def concrete(fi: int, p: int, q: int) -> typing.Any:
+        import pydsdl
+
+        ty, form = CONST_TYPES[ti], CONST_FORMS[fi]
+        text = "%s K = %s\nuint8 x\n@sealed\n" % (ty, form % (p, q))
+        try:
+            t, _ = textio.read_text(text, full_name="ns.T")
+        except pydsdl.InvalidDefinitionError:
+            return True  # not every value suits every type; which ones do is the subject of C05 / C12
+        k = t.constants[0]
+        try:
+            again, _ = textio.read_text(canonical(t), full_name="ns.T")
+        except pydsdl.InvalidDefinitionError as ex:
+            return "rendering %r of %r is rejected: %s" % (str(k), text, type(ex).__name__)
+        k2 = again.constants[0]
+        if k2.value.native_value != k.value.native_value or type(k2.value) is not type(k.value):
+            return "rendering %r of %r reads back as %r, not %r" % (str(k), text, k2.value.native_value, k.value.native_value)
+        if again != t or hash(again) != hash(t) or model.summary(again) != model.summary(t):
+            return "rendering of %r reads back as an unequal model" % text
+        return True
+
+    def h(fi: int, p: int, q: int) -> typing.Any:
+        b, c, d = pick(fi, 0, len(CONST_FORMS) - 1), pick(p, -3, 12), pick(q, 1, 9)
+        if b is None or c is None or d is None:
+            return None
+        return textio.native(concrete, b, c, d)
+
+    return h
+
+
 # ------------------------------------------------------------------------------------------------------------------
 
 
@@ -428,6 +467,13 @@ def conditions(tier: str, seed: int) -> typing.List[Cond]:
         out.append(Cond(PROP, "c03.section-scope", make_section_scope, {"variant": variant}, {"a": int, "b": int},
                         assumptions=["constant values a, b in 1..100 (symbolic), same constant names in request and response"],
                         fmtstub=True, witness={"a": 3, "b": 5}, budget=240.0, need_exhaust=True, key="key_c03"))
+    for ti in range(len(CONST_TYPES)):
+        out.append(Cond(PROP, "c03.const-roundtrip", make_const_roundtrip, {"ti": ti}, {"fi": int, "p": int, "q": int},
+                        kind="choice",
+                        assumptions=["one %s constant x %d value forms over p in -3..12, q in 1..9 (non-dyadic fractions, "
+                                     "beyond 2**53, beyond 17 significant digits, tiny magnitudes), rendered with str() "
+                                     "and read back" % (CONST_TYPES[ti], len(CONST_FORMS))],
+                        witness={"fi": 0, "p": 1, "q": 3}, budget=900.0, need_exhaust=True, key="key_c03"))
     seqs = [[E_CONST, E_ARRAY, E_FIELD], [E_ARRAY, E_DOCFIELD, E_CONST], [E_FIELD, E_CONST, E_BLANK, E_ARRAY],
             [E_DOCFIELD, E_ARRAY, E_DETACHED, E_CONST], [E_PAD, E_ARRAY, E_CONST]]
     for ev in (seqs if thorough else seqs[:2] + [rnd.choice(seqs[2:])]):
